@@ -5,6 +5,7 @@ import (
 	"bytes"
 	"context"
 	"crypto/sha256"
+	"encoding/base64"
 	"encoding/hex"
 	"encoding/json"
 	"flag"
@@ -16,6 +17,7 @@ import (
 	"strings"
 
 	ipfslog "berty.tech/go-ipfs-log"
+	"berty.tech/go-ipfs-log/enc"
 	"berty.tech/go-ipfs-log/entry"
 	"berty.tech/go-ipfs-log/entry/sorting"
 	idp "berty.tech/go-ipfs-log/identityprovider"
@@ -27,6 +29,8 @@ import (
 	dssync "github.com/ipfs/go-datastore/sync"
 	cbornode "github.com/ipfs/go-ipld-cbor"
 	dag "github.com/ipfs/go-merkledag"
+	"github.com/libp2p/go-libp2p/core/crypto"
+	"github.com/multiformats/go-multibase"
 	mh "github.com/multiformats/go-multihash"
 
 	"verif/harness/fakeipfs"
@@ -67,6 +71,12 @@ type obligation struct {
 	Refs    string `json:"refs"`
 	Clock   string `json:"clock"`
 	Codec   string `json:"codec"`
+	Ident   string `json:"ident"`
+	// c18
+	NNext int    `json:"nnext"`
+	NRefs int    `json:"nrefs"`
+	WKey  string `json:"wkey"`
+	D     string `json:"d"`
 	// c12
 	Obj  string `json:"obj"`
 	Devs []dev  `json:"devs"`
@@ -89,6 +99,11 @@ type codecRec struct {
 	Determ     bool     `json:"determ"`     // encoding the same logical entry again gives the same CID
 	CidStr     string   `json:"cid"`        // for the cross-process comparison
 	VerifyBack bool     `json:"verifyback"` // the decoded entry verifies
+	// c18
+	Clear      int `json:"clear"`      // known CIDs found in the raw bytes
+	NLinks     int `json:"nlinks"`     // IPLD links of the stored block
+	NoKeyLinks int `json:"nokeylinks"` // links a reader without key obtains
+	OtherLinks int `json:"otherlinks"` // links a reader with another key obtains
 	// c12
 	Panic   bool   `json:"panic"`
 	Where   string `json:"where"`
@@ -136,6 +151,7 @@ func normalise(rec *codecRec) {
 }
 
 type codecEnv struct {
+	dev2  *idp.Identity
 	ctx   context.Context
 	api   *fakeipfs.API
 	pool  *world.Pool
@@ -357,6 +373,9 @@ func (env *codecEnv) runC08(ob *obligation, variant int) codecRec {
 		return rec
 	}
 	id := env.pool.W(1)
+	if ob.Ident == "dev2" && env.dev2 != nil {
+		id = env.dev2
+	}
 	src := &entry.Entry{LogID: "C8", Payload: env.c08Payload(ob.Payload, variant), Next: c08Links(ob.Next, env), Refs: c08Links(ob.Refs, env),
 		Clock: entry.NewLamportClock(id.PublicKey, c08Clock(ob.Clock))}
 	e, err := entry.CreateEntryWithIO(env.ctx, env.api, id, src, nil, io)
@@ -622,6 +641,163 @@ func (env *codecEnv) runC12V0(ob *obligation, variant int, wire map[string]inter
 	return rec
 }
 
+// ---- C18 via direct entry creation -------------------------------------------------
+
+func (env *codecEnv) runC18(ob *obligation, variant int) codecRec {
+	rec := codecRec{K: "c18", Ob: ob, Conc: variant, Diff: []string{}}
+	io, err := world.Codec(ob.WKey)
+	if err != nil {
+		rec.HErr, rec.Note = true, "harness: "+err.Error()
+		return rec
+	}
+	id := env.pool.W(1)
+	all := []cid.Cid{env.links["c1"], env.links["c2"], env.links["c3"], mkLink(fmt.Sprint("x", variant))}
+	next := append([]cid.Cid{}, all[:ob.NNext]...)
+	refs := append([]cid.Cid{}, all[4-ob.NRefs:]...)
+	e, err := entry.CreateEntryWithIO(env.ctx, env.api, id, &entry.Entry{LogID: "C18", Payload: env.c08Payload(ob.Payload, variant), Next: next, Refs: refs,
+		Clock: entry.NewLamportClock(id.PublicKey, 3+variant)}, nil, io)
+	if err != nil {
+		rec.HErr, rec.Note = true, "harness: create: "+err.Error()
+		return rec
+	}
+	node := env.api.D.Raw(e.GetHash())
+	raw := node.RawData()
+	rec.NLinks = len(node.Links())
+	for _, c := range append(append([]cid.Cid{}, next...), refs...) {
+		forms := [][]byte{c.Bytes(), []byte(c.String())}
+		if b58, err := c.StringOfBase(multibase.Base58BTC); err == nil {
+			forms = append(forms, []byte(b58))
+		}
+		for _, f := range forms {
+			if bytes.Contains(raw, f) {
+				rec.Clear++
+				break
+			}
+		}
+	}
+	back, err := entry.FromMultihashWithIO(env.ctx, env.api, e.GetHash(), id.Provider, io)
+	if err == nil && back != nil {
+		rec.RoundTrip = cidsEq(back.GetNext(), e.GetNext()) && cidsEq(back.GetRefs(), e.GetRefs()) && bytes.Equal(back.GetPayload(), e.GetPayload())
+		rec.VerifyBack = safeVerify(back, id.Provider, io)
+	}
+	other := "cbor+lk2"
+	if ob.WKey == "cbor+lk2" {
+		other = "cbor+lk1"
+	}
+	for i, codec := range []string{"cbor", other} {
+		rio, _ := world.Codec(codec)
+		n := 0
+		if b, err := entry.FromMultihashWithIO(env.ctx, env.api, e.GetHash(), id.Provider, rio); err == nil && b != nil {
+			n = len(b.GetNext()) + len(b.GetRefs())
+		}
+		if i == 0 {
+			rec.NoKeyLinks = n
+		} else {
+			rec.OtherLinks = n
+		}
+	}
+	return rec
+}
+
+// ---- C12: deviations inside the encrypted links of a link-keyed block -----------------
+
+func cborText(s string) []byte { return append([]byte{0x60 + byte(len(s))}, []byte(s)...) }
+
+func cborLink(inner []byte) []byte {
+	out := []byte{0xd8, 0x2a}
+	if len(inner) < 24 {
+		out = append(out, 0x40+byte(len(inner)))
+	} else {
+		out = append(out, 0x58, byte(len(inner)))
+	}
+	return append(out, inner...)
+}
+
+func (env *codecEnv) encLinksValue(d string, variant int) []byte {
+	good := append([]byte{0}, env.links["c1"].Bytes()...)
+	switch d {
+	case "valid":
+		return append([]byte{0x81}, cborLink(good)...)
+	case "emptylink":
+		return append([]byte{0x81}, cborLink([]byte{})...)
+	case "badmultibase":
+		bad := append([]byte{1}, env.links["c1"].Bytes()...)
+		return append([]byte{0x81}, cborLink(bad)...)
+	case "garbagelink":
+		return append([]byte{0x81}, cborLink([]byte{0, 1, 2, 3, byte(variant)})...)
+	case "wrongtype":
+		return append([]byte{0x81}, cborText("abc")...)
+	case "null":
+		return []byte{0xf6}
+	case "notalist":
+		return cborText("zz")
+	case "truncated":
+		return append([]byte{0x82}, cborLink(good)...) // announces two elements, carries one
+	}
+	return []byte{0x80}
+}
+
+func (env *codecEnv) runC12Enc(ob *obligation, variant int) codecRec {
+	rec := codecRec{K: "c12enc", Ob: ob, Conc: variant, Diff: []string{}}
+	key := bytes.Repeat([]byte{0x11}, enc.SecretBoxKeySize) // the key of codec cbor+lk1
+	sk, err := enc.NewSecretbox(key)
+	if err != nil {
+		rec.HErr, rec.Note = true, "harness: "+err.Error()
+		return rec
+	}
+	io, _ := world.Codec("cbor+lk1")
+	id := env.pool.W(1)
+	other, err := entry.CreateEntryWithIO(env.ctx, env.api, id, &entry.Entry{LogID: "W", Payload: []byte("other")}, nil, io)
+	if err != nil {
+		rec.HErr, rec.Note = true, "harness: "+err.Error()
+		return rec
+	}
+	// inner value: {"next": X, "refs": []} or {"next": [], "refs": X}
+	inner := []byte{0xa2}
+	for _, f := range []string{"next", "refs"} {
+		inner = append(inner, cborText(f)...)
+		if f == ob.F {
+			inner = append(inner, env.encLinksValue(ob.D, variant)...)
+		} else {
+			inner = append(inner, 0x80)
+		}
+	}
+	nonce := bytes.Repeat([]byte{byte(7 + variant)}, enc.SecretBoxNonceSize)
+	sealed, err := sk.SealWithNonce(inner, nonce)
+	if err != nil {
+		rec.HErr, rec.Note = true, "harness: "+err.Error()
+		return rec
+	}
+	wire := validWire(env)
+	wire["next"] = []interface{}{}
+	wire["refs"] = []interface{}{}
+	wire["enc_links"] = base64.StdEncoding.EncodeToString(sealed)
+	wire["enc_links_nonce"] = base64.StdEncoding.EncodeToString(nonce)
+	node, err := cbornode.WrapObject(wire, mh.SHA2_256, -1)
+	if err != nil {
+		rec.HErr, rec.Note = true, "harness: "+err.Error()
+		return rec
+	}
+	env.api.D.Put(node)
+	func() {
+		step := "decode"
+		defer func() {
+			if r := recover(); r != nil {
+				rec.Panic, rec.Where = true, step+fmt.Sprintf(": %v", r)
+			}
+		}()
+		e, err := entry.FromMultihashWithIO(env.ctx, env.api, node.Cid(), id.Provider, io)
+		if err != nil || e == nil {
+			return
+		}
+		rec.Decoded = true
+		if where, p := exerciseEntry(e, other, id.Provider, io); p {
+			rec.Panic, rec.Where = true, "accessor: "+where
+		}
+	}()
+	return rec
+}
+
 // raw byte classes: random, truncated, bit-flipped encodings of a valid entry
 func (env *codecEnv) runRaw(n int) []codecRec {
 	var out []codecRec
@@ -783,6 +959,36 @@ func (env *codecEnv) runVectors() []codecRec {
 	return out
 }
 
+// secondDevice builds another identity of the same user as pool.W(1): the same name key (so the same id),
+// imported into a second keystore that generates its own signing key (different public key and signatures).
+func secondDevice(ctx context.Context, pool *world.Pool) *idp.Identity {
+	first := pool.W(1)
+	for i := 0; i < pool.N(); i++ {
+		name := fmt.Sprintf("verif-user-%d", i)
+		raw, err := pool.Store.Get(ctx, ds.NewKey(name))
+		if err != nil {
+			continue
+		}
+		store := dssync.MutexWrap(ds.NewMapDatastore())
+		_ = store.Put(ctx, ds.NewKey(name), raw)
+		// the second device's own signing key, seeded (CreateKey would draw it from crypto/rand)
+		if priv, err := crypto.UnmarshalSecp256k1PrivateKey(raw); err == nil {
+			pub, _ := priv.GetPublic().Raw()
+			sum := sha256.Sum256(append([]byte("verif-second-device"), raw...))
+			_ = store.Put(ctx, ds.NewKey(hex.EncodeToString(pub)), sum[:])
+		}
+		keystore, err := ks.NewKeystore(store)
+		if err != nil {
+			continue
+		}
+		id, err := idp.CreateIdentity(ctx, &idp.CreateIdentityOptions{Keystore: keystore, ID: name, Type: "orbitdb"})
+		if err == nil && id.ID == first.ID {
+			return id
+		}
+	}
+	return nil
+}
+
 func codecrun(args []string) int {
 	fs := flag.NewFlagSet("codecrun", flag.ExitOnError)
 	obPath := fs.String("obligations", "", "ndjson of obligations exported by Codec.tla")
@@ -810,6 +1016,7 @@ func codecrun(args []string) int {
 	}
 	env := &codecEnv{ctx: ctx, api: fakeipfs.New(), pool: pool, rnd: rand.New(rand.NewSource(*seed)),
 		links: map[string]cid.Cid{"c1": mkLink("1"), "c2": mkLink("2"), "c3": mkLink("3")}}
+	env.dev2 = secondDevice(ctx, pool)
 	cio, _ := world.Codec("cbor")
 	f, err := os.Open(*obPath)
 	if err != nil {
@@ -854,6 +1061,10 @@ func codecrun(args []string) int {
 				cids = append(cids, rec.CidStr)
 			case "c12":
 				rec = env.runC12(ob, v)
+			case "c12enc":
+				rec = env.runC12Enc(ob, v)
+			case "c18":
+				rec = env.runC18(ob, v)
 			default:
 				continue
 			}
